@@ -7,6 +7,7 @@ CONSTANTS
   MaxReads = 3
   Refs <- RefsTwo
   UMIs = {1, 2}
+  Sites = {7, 9}
   Cap = 0
   MaxNs1 = {0}
   Variant = "design"
